@@ -119,6 +119,12 @@ class ADataDict:
     def pyvc_setitem(self, interp, key, v):
         log_write(f"attr:{key}", ("set-node-attr", self.node, key, v))
 
+    def pyvc_update_into(self, interp, target):
+        """d.update(<attribute dict of a node>): whatever attributes the node has now override the
+        entries d has so far (and are overridden by entries written later): recorded as a marker"""
+        log_read("attr:*")
+        target[("$existing-attributes", id(self))] = self
+
 
 class AHasAttr:
     """result of `<key> in data`: a symbolic Boolean that remembers what it tests"""
